@@ -8,15 +8,12 @@ from harness.gen import c06gen as G
 from harness.impl import c06impl as I
 
 IMPORTS = "From Ford Require Import Base.Str Sem.UseAssoc Corr.C06."
-THEOREMS = ["C06_partial", "C06_refuted_rename", "C06_refuted_rename_across_statements",
-            "C06_refuted_private_reexport", "C06_refuted_only_empty", "C06_refuted_only_dup",
-            "C06_statement_refuted", "C06_order_independent", "C06_toposort_is_topo",
+THEOREMS = ["C06_full", "C06_fixed_rename", "C06_fixed_rename_across_statements",
+            "C06_fixed_private_reexport", "C06_fixed_only_empty", "C06_fixed_only_dup",
+            "C06_order_independent", "C06_toposort_is_topo",
             "C06_private_never_imported", "C06_spec_private_never_accessible", "C06_fuel_enough",
-            "C06_example_hypotheses", "C06_nested_partial", "C06_nested_refuted_rename",
-            "C06_nested_statement_refuted", "C06_nested_fixed_absbody", "C06_nested_fixed_genbody",
-            "C06_nested_example"]
-REGION_KEYS = {1: "rename-without-only", 2: "private-import-reexported", 4: "only-empty-imports-all",
-               8: "only-duplicate-remote"}
+            "C06_example_hypotheses", "C06_nested_full", "C06_nested_fixed_rename",
+            "C06_nested_fixed_absbody", "C06_nested_fixed_genbody", "C06_nested_example"]
 
 
 # ----------------------------------------------------------------------------- fixed cases
@@ -179,7 +176,7 @@ def multi_use_layer():
     """several USE statements of one module in one scope -- at module level (the local names re-exported
     and referenced two modules further down) and in nested scopes (the local names referenced there).
     Fortran: the associations of the statements add up (a rename also hides the remote name from a
-    statement without ONLY of the same scope: region 1)."""
+    statement without ONLY of the same scope)."""
     combos = {
         "plain_then_only_rename": [use("ma"), use("ma", [("tl", "ta1"), ("pl", "pa1"), ("il", "ia1")])],
         "only_rename_then_plain": [use("ma", [("tl", "ta1"), ("pl", "pa1"), ("il", "ia1")]), use("ma")],
@@ -342,48 +339,32 @@ class Runner:
         terms = [G.coq_case(units, groups) for _, units, groups, _ in self.cases if groups]
         idx = [k for k, c in enumerate(self.cases) if c[2]]
         res = chk.coq_judge(IMPORTS, "case", "judge", terms, shard=max(8, len(terms) // 16 + 1))
-        stats = {"not_legal_spec_skipped": 0, "model_mismatch": 0, "spec_violation_in_region": 0, "spec_violation_outside": 0, "regions": {}}
+        stats = {"not_legal_spec_skipped": 0, "model_mismatch": 0, "spec_violation": 0,
+                 "model_differs_from_spec": 0}
         if res is None:
             return stats
         chk.traces += self.nruns
-        # region census of all cases
-        # failing inputs outside every region first (at most three replays are kept)
-        stats["legal_region_free_agreeing_with_spec"] = len(terms) - len(res)
-        stats["differs_from_spec_only_where_the_model_does"] = 0
+        stats["legal_agreeing_with_spec"] = len(terms) - len(res)
         for j, code in sorted(res.items(), key=lambda jc: (not (jc[1] & 2), jc[0])):
             label, units, groups, files = self.cases[idx[j]]
-            region = (code >> 2) & 31
             deviates = (code >> 8) & 1          # impl differs from the Spec somewhere
             if (code >> 7) & 1:
                 stats["not_legal_spec_skipped"] += 1
-            for bit in REGION_KEYS:
-                if region & bit:
-                    stats["regions"][REGION_KEYS[bit]] = stats["regions"].get(REGION_KEYS[bit], 0) + 1
             payload = {"label": label, "units": units, "files": files, "code": code,
                        "meaning": "bit0 model!=impl; bit1 impl differs from the Spec at a name / reference where the model "
-                                  "agrees with the Spec (not explained by a recorded defect); bits>=2: region mask "
-                                  "(1 rename,2 private,4 only-empty,8 only-dup), "
-                                  "32 not legal, 64 impl differs from the Spec somewhere",
+                                  "agrees with the Spec; bits>=2: 32 not legal, 64 impl differs from the Spec somewhere",
                        "observed": groups[0][0], "runs": [g[1][:3] for g in groups],
                        "file_orders": [m[0] for g in groups for m in g[1][:3]]}
             if code & 2:
-                # a deviation the recorded defects do not explain: a failing input in or out of a region
                 chk.disagreements += 1
-                stats["spec_violation_outside" if region == 0 else "spec_violation_unexplained_in_region"] = \
-                    stats.get("spec_violation_outside" if region == 0 else "spec_violation_unexplained_in_region", 0) + 1
+                stats["spec_violation"] += 1
                 chk.violation("failing-input", payload, True)
             elif deviates:
+                # the implementation and the model both differ from the Spec on a legal program: no
+                # recorded defect is left that could explain it (C06_full / C06_nested_full)
                 chk.disagreements += 1
-                if region == 0:
-                    # the model itself differs from the Spec outside every region: contradicts C06_partial
-                    stats["spec_violation_outside"] += 1
-                    chk.violation("failing-input", payload, True)
-                else:
-                    stats["spec_violation_in_region"] += 1
-                    stats["differs_from_spec_only_where_the_model_does"] += 1
-                    for bit, key in REGION_KEYS.items():
-                        if region & bit and not chk.known(key, False):
-                            chk.violation("failing-input", payload, True)
+                stats["model_differs_from_spec"] += 1
+                chk.violation("failing-input", payload, True)
             if code & 1:
                 stats["model_mismatch"] += 1
                 if not code & 2:
@@ -491,7 +472,7 @@ def run(chk):
     # 2c. several USE statements of one module in one scope
     for label, units in multi_use_layer():
         R.add(label, units, file_orders(rng, units, 1 if quick else 3))
-    # 3. random DAGs (mostly legal, region-free), two file orders each
+    # 3. random DAGs (mostly legal), two file orders each
     n_random = 240 if quick else 4000
     for k in range(n_random):
         knobs = {"regions": rng.random() < 0.25, "p_clash": 0.3 if rng.random() < 0.15 else 0.0,
@@ -516,28 +497,42 @@ def run(chk):
     chk.extra["c06"] = {"ford_runs": R.nruns, "cases": len(R.cases), "full_runs_html": R.nhtml,
                         "html_references_checked": R.nhtml_refs, "impl_s": round(t1 - t0, 1),
                         "judge_s": round(time.time() - t1, 1), **stats}
-    # 6. recorded findings: replay each witness on the implementation
+    # 6. repaired findings: replay each witness on the implementation
     replay_findings(chk)
 
 
 def replay_findings(chk):
+    """the witnesses of the repaired defects (fixed: entries in known_findings.d/C06.json): regression
+    inputs, a failing input if one of them returns"""
     def tabs(units):
         files, where = G.render_files(units)
         obs, _, _ = I.observe(units, files, where, [u["name"] for u in units])
         return {o["name"]: o for o in obs["units"]} if isinstance(obs, dict) else {}
+
+    def back(what, units, t):
+        chk.violation("failing-input", {"what": what, "units": units, "files": G.render_files(units)[0],
+                                        "variables_seen": {n: o["all"][3] for n, o in t.items()}}, True)
     t = tabs(witness_rename())
     keys = dict(t["mb"]["all"][3]) if t else {}
-    chk.known("rename-without-only", bool(t) and ("bar" not in keys or "foo" in keys))
+    if not t or "bar" not in keys or "foo" in keys:
+        back("`use ma, bar => foo`: the rename without ONLY is ignored (bar missing or foo still visible)",
+             witness_rename(), t)
     t = tabs(witness_across())
     keys = dict(t["mb"]["all"][3]) if t else {}
-    chk.known("rename-not-hiding-across-use-statements", bool(t) and "foo" in keys and "bar" in keys)
+    if not t or "foo" in keys or "bar" not in keys:
+        back("`use ma` / `use ma, only: bar => foo`: foo stays visible although it is renamed in the same scope",
+             witness_across(), t)
     t = tabs(witness_private())
-    chk.known("private-import-reexported", bool(t) and "foo" in dict(t["mc"]["all"][3]))
+    if not t or "foo" in dict(t["mc"]["all"][3]) or "foo" not in dict(t["mb"]["all"][3]):
+        back("`use ma; private :: foo` in a default-public module: foo is re-exported to users of the module",
+             witness_private(), t)
     t = tabs(witness_only_empty())
-    chk.known("only-empty-imports-all", bool(t) and len(t["mb"]["all"][3]) > 0)
+    if not t or any(len(c) > 0 for c in t["mb"]["all"]):
+        back("`use ma, only:` with an empty only-list imports entities", witness_only_empty(), t)
     t = tabs(witness_only_dup())
     keys = dict(t["mb"]["all"][3]) if t else {}
-    chk.known("only-duplicate-remote", bool(t) and "foo" not in keys)
+    if not t or "foo" not in keys or "bar" not in keys:
+        back("`use ma, only: foo, bar => foo`: one of the two local names of foo is missing", witness_only_dup(), t)
 
     def nested_types(units, path):
         files, where = G.render_files(units)
